@@ -84,7 +84,7 @@ func handle(f []string) string {
 		kind := f[2]
 		optCap, e1 := strconv.Atoi(f[3])
 		data, e2 := lp.ParseHex(f[4])
-		if !ok || e1 != nil || e2 != nil || (kind != "fresh" && kind != "recycled") {
+		if !ok || e1 != nil || e2 != nil || (kind != "fresh" && kind != "recycled" && kind != "loaded") {
 			return "bad-op"
 		}
 		return codecx.Guard(2*time.Second, func() string {
